@@ -23,7 +23,8 @@ RULE = ('label arrays of length 1..60 drawn from 12 generator classes (uniform, 
 ASSUMPTIONS = [
     'distinct-stays-distinct is only demanded for pairs whose gap exceeds 1e-9 of '
     'the feasible range (float rounding may merge closer values)',
-    'order reversal is flagged only beyond 1e-12 relative slack',
+    'order reversal is flagged only beyond 1e-12 relative slack (8 float32 eps for subjects containing TransformToGaussian, '
+    'which computes in float32)',
     'extreme magnitudes (>=1e150) are a separate class; only finiteness / shape / '
     'no-mutation are demanded there',
     '+inf labels must be rejected with ValueError (documented)',
@@ -208,7 +209,10 @@ def check_one(ctx, name, factory, cls, y, index):
     ys2, ws2 = ys[both], ws[both]
     if ws2.size >= 2:
       # running maximum of w over strictly smaller y must not exceed w by > slack
-      slack = 1e-12 * max(1.0, float(np.abs(ws2).max()))
+      # TransformToGaussian computes in float32 (tfp / jax default): labels that
+      # normalise to the same float32 may come back a few float32 ulps apart.
+      rel = 8 * float(np.finfo(np.float32).eps) if name in ('gauss', 'outlier') else 1e-12
+      slack = rel * max(1.0, float(np.abs(ws2).max()))
       runmax = -np.inf
       j = 0
       bad = None
